@@ -108,16 +108,18 @@ func main() {
 		}
 		notationCfg := ocispec.Descriptor{MediaType: registry.ArtifactTypeNotation, Digest: ocispec.DescriptorEmptyJSON.Digest, Size: 2}
 		store.Push(ctx, notationCfg, bytes.NewReader([]byte("{}")))
-		model := map[digest.Digest][]pushed{}
+		model := map[string][]pushed{}
+		keyOf := func(d ocispec.Descriptor) string { return fmt.Sprintf("%s|%s|%d", d.MediaType, d.Digest, d.Size) }
 		addModel := func(sub ocispec.Descriptor, p pushed) {
-			for _, q := range model[sub.Digest] {
+			for _, q := range model[keyOf(sub)] {
 				if q.Man.Digest == p.Man.Digest {
 					return
 				}
 			}
-			model[sub.Digest] = append(model[sub.Digest], p)
+			model[keyOf(sub)] = append(model[keyOf(sub)], p)
 		}
 		var trace []string
+		var nearMiss []ocispec.Descriptor
 		nOps := 4 + rng.Intn(9)
 		for op := 0; op < nOps; op++ {
 			si := rng.Intn(3)
@@ -164,6 +166,21 @@ func main() {
 				if m.Subject != nil { // it is a (weird) signature manifest of `other` with the subject manifest as its envelope blob
 					addModel(other, pushed{Kind: "weird", Man: d})
 				}
+			case kind == 7 && rng.Bool(): // a real PushSignature for a subject that differs from a stored artifact in exactly one field
+				fake := sub
+				if rng.Bool() {
+					fake.MediaType = "application/vnd.docker.distribution.manifest.v2+json"
+				} else {
+					fake.Size++
+				}
+				blob := []byte(fmt.Sprintf("near-miss-envelope %d/%d", iter, op))
+				_, man, err := repo.PushSignature(ctx, lib.MediaJWS, blob, fake, map[string]string{"near": "miss"})
+				trace = append(trace, fmt.Sprintf("PushSignature for subject#%d with one field changed (%s, %d) -> %v", si, fake.MediaType, fake.Size, err))
+				if err == nil {
+					// it belongs to the descriptor it was pushed for, never to the stored artifact that merely shares the digest
+					nearMiss = append(nearMiss, fake)
+					addModel(fake, pushed{Kind: "signature", MT: lib.MediaJWS, Blob: blob, Ann: map[string]string{"near": "miss"}, Man: man})
+				}
 			case kind == 7: // subject descriptor differing in exactly one field
 				fake := sub
 				if rng.Bool() {
@@ -176,7 +193,10 @@ func main() {
 				m.SchemaVersion = 2
 				func() {
 					defer func() { recover() }() // a store may refuse a subject whose size contradicts stored content
-					pushJSON(ctx, store, ocispec.MediaTypeImageManifest, m)
+					d := pushJSON(ctx, store, ocispec.MediaTypeImageManifest, m)
+					// it is a signature manifest of exactly that near-miss descriptor (and of nothing else)
+					nearMiss = append(nearMiss, fake)
+					addModel(fake, pushed{Kind: "weird", Man: d})
 				}()
 				trace = append(trace, fmt.Sprintf("notation-typed manifest whose subject differs from subject#%d in one field", si))
 			case kind == 8: // legacy artifact manifest: signature of sub (listed) or of nothing relevant
@@ -220,7 +240,7 @@ func main() {
 				addModel(sub, pushed{Kind: "hostile-declared-blob-size", Man: d, Refuse: true, BlobDigest: []digest.Digest{real.Digest}})
 			default:
 				// re-push of an identical signature (idempotent)
-				if ps := model[sub.Digest]; len(ps) > 0 && ps[0].Kind == "signature" {
+				if ps := model[keyOf(sub)]; len(ps) > 0 && ps[0].Kind == "signature" {
 					_, man, err := repo.PushSignature(ctx, ps[0].MT, ps[0].Blob, sub, ps[0].Ann)
 					trace = append(trace, fmt.Sprintf("identical re-push for subject#%d -> %v", si, err))
 					if err == nil {
@@ -242,8 +262,14 @@ func main() {
 				observers["NewOCIRepository"] = ro
 			}
 		}
+		type held struct {
+			blob []byte
+			want []byte
+			what string
+		}
+		var heldResults []held
 		for oname, ob := range observers {
-			for si, sub := range subjects {
+			for si, sub := range append(append([]ocispec.Descriptor{}, subjects...), nearMiss...) {
 				var got []ocispec.Descriptor
 				err := ob.ListSignatures(ctx, sub, func(ds []ocispec.Descriptor) error { got = append(got, ds...); return nil })
 				r.Eval(fmt.Sprintf("%d|%d|%s", iter, si, oname))
@@ -258,7 +284,7 @@ func main() {
 					gd = append(gd, d.Digest.String())
 					gotBy[d.Digest] = d
 				}
-				for _, p := range model[sub.Digest] {
+				for _, p := range model[keyOf(sub)] {
 					wd = append(wd, p.Man.Digest.String())
 				}
 				sort.Strings(gd)
@@ -269,7 +295,7 @@ func main() {
 					r.Violation(map[string]string{"kind": "listing"}, fmt.Sprintf("ListSignatures(subject#%d) returned %d manifests, %d were pushed for it (sets differ)", si, len(gd), len(wd)), wit)
 					continue
 				}
-				for _, p := range model[sub.Digest] {
+				for _, p := range model[keyOf(sub)] {
 					md := gotBy[p.Man.Digest]
 					if p.Kind == "weird" {
 						continue
@@ -290,6 +316,7 @@ func main() {
 						continue
 					}
 					blob, bd, ferr := ob.FetchSignatureBlob(ctx, md)
+					heldResults = append(heldResults, held{blob, p.Blob, fmt.Sprintf("%s observer, subject #%d", oname, si)})
 					r.Event("fetches")
 					if ferr != nil || !bytes.Equal(blob, p.Blob) || bd.MediaType != p.MT || bd.Digest != digest.FromBytes(p.Blob) {
 						r.Violation(map[string]string{"kind": "fetch"}, fmt.Sprintf("FetchSignatureBlob: err=%v, %d bytes of type %s; pushed %d bytes of type %s", ferr, len(blob), bd.MediaType, len(p.Blob), p.MT), wit)
@@ -305,6 +332,13 @@ func main() {
 						}
 					}
 				}
+			}
+		}
+		// results of earlier fetches must still hold their own bytes after later fetches (no buffer reuse across calls)
+		for _, h := range heldResults {
+			if !bytes.Equal(h.blob, h.want) {
+				r.Violation(map[string]string{"kind": "fetch", "why": "earlier-result-changed-by-later-fetch"}, fmt.Sprintf("an envelope fetched earlier (%s) no longer holds the bytes that were pushed after later fetches", h.what), map[string]any{"trace": trace})
+				break
 			}
 		}
 		// hostile: manifest descriptor declaring more than 4 MiB must be refused before the manifest is fetched
